@@ -29,15 +29,58 @@ def _t1_worker(job):
                                               traceback.extract_tb(e.__traceback__)[-5:]))[:1500]).to_json()]
 
 
+def _t1_child(job, conn):
+    try:
+        conn.send(_t1_worker(job))
+    finally:
+        conn.close()
+
+
+def run_units(jobs, limit_s, nproc=16):
+    """Run every T1 unit in its own process (at most nproc at a time) under a hard wall-clock limit: a solver call that
+    ignores its own timeout is killed and reported as `timeout` (undecided), it can never hang the check."""
+    import multiprocessing as mp
+    ctx = mp.get_context('fork')
+    pending, running, out = list(enumerate(jobs)), {}, {}
+    while pending or running:
+        while pending and len(running) < nproc:
+            k, job = pending.pop(0)
+            a, b = ctx.Pipe(duplex=False)
+            pr = ctx.Process(target=_t1_child, args=(job, b), daemon=True)
+            pr.start()
+            b.close()
+            running[k] = (pr, a, time.time(), job)
+        time.sleep(0.02)
+        for k in list(running):
+            pr, a, t0, job = running[k]
+            if a.poll():
+                try:
+                    out[k] = a.recv()
+                except EOFError:
+                    out[k] = [core.Ob(id=f'{job[0]}.<unit>', kind='unit', func=job[0], status='error', backend='-',
+                                      detail='unit process ended without a result').to_json()]
+                pr.join(1)
+                del running[k]
+            elif not pr.is_alive():
+                out[k] = [core.Ob(id=f'{job[0]}.<unit>', kind='unit', func=job[0], status='error', backend='-',
+                                  detail=f'unit process died (exit code {pr.exitcode})').to_json()]
+                del running[k]
+            elif time.time() - t0 > limit_s:
+                pr.kill()
+                pr.join(1)
+                out[k] = [core.Ob(id=f'{job[0]}.<unit>', kind='unit', func=job[0], status='timeout', backend='-',
+                                  seconds=limit_s, detail=f'unit exceeded the wall-clock limit of {limit_s}s and was stopped').to_json()]
+                del running[k]
+    return [out[k] for k in range(len(jobs))]
+
+
 def run_t1(prop, P, tier):
     units = list(getattr(P, 'T1', []))
     if not units:
         return [], {}
-    import multiprocessing as mp
-    ctx = mp.get_context('fork')
     t0 = time.time()
-    with ctx.Pool(min(16, len(units))) as pool:
-        res = pool.map(_t1_worker, [(u, tier) for u in units], chunksize=1)
+    limit = int(os.environ.get('TTVC_UNIT_LIMIT_S', '240' if tier == 'quick' else '900'))
+    res = run_units([(u, tier) for u in units], limit)
     obs = [core.Ob.from_json(o) for r in res for o in r]
     seen, out = set(), []
     meta = {'functions': [], 'units': units, 'trusted': []}
